@@ -147,6 +147,9 @@ def pattern(rnd, nmem_hint):
     return ops
 
 
+_PRESENCE = None
+
+
 def gen_cases(seed, n, corpus):
     rnd = random.Random(seed)
     cases = []
@@ -163,6 +166,27 @@ def gen_cases(seed, n, corpus):
         elif r < 0.65:
             a = mutate(rnd, arc.archive(c15.random_archive(rnd)))
             kind_in = 'mutated-generated'
+        elif r < 0.73:
+            # a header from the name/path presence matrix (entry kinds the library has to classify: file, directory, symlink-mode
+            # entry with and without a target, Amiga directory quirk - with and without name and path), followed by ordinary
+            # members inside a directory, walked mostly with extract so that the reader's directory bookkeeping sees it
+            global _PRESENCE
+            if _PRESENCE is None:
+                from . import c12
+                _PRESENCE = c12.presence_bases()
+            m = rnd.choice(_PRESENCE)
+            tail = [arc.file_member(rnd, '-lh0-', b'x', size=3, level=rnd.choice([0, 1, 2]), path=rnd.choice([b'p/', b'p/q/', b''])) for _ in range(rnd.choice([1, 2]))]
+            a = H.build(m) + b''.join(x.bytes() for x in tail) + b'\0'
+            if rnd.random() < 0.2:
+                a = mutate(rnd, a)
+            kind_in = 'presence-matrix'
+            ops = []
+            for _ in range(5):
+                ops.append((rdh.OP_NEXT, 0))
+                if rnd.random() < 0.8:
+                    ops.append((rdh.OP_EXTRACT_NAMED, 0))
+            cases.append(rdh.RCase(a, ops, kind=rnd.choice([0, 2]), policy=rnd.choice([0, 1, 2, 3]), meta=kind_in))
+            continue
         else:
             a = hostile(rnd)
             kind_in = 'structured-hostile'
